@@ -2,7 +2,7 @@ From Coq Require Extraction.
 From Coq Require Import ExtrOcamlBasic.
 From NV Require Import Base.Witness Io.Source Async.ReadExact Util.Detect Util.Fill Util.AsyncFill Util.Dispatch Util.Convert Util.ConvertFile.
 From NV Require Import Util.ConvertFile2 Util.ConvertVariant Bcf.StringMap Vcf.Values Vcf.Line.
-From NV Require Import Util.ConvertVariantHdr.
+From NV Require Import Util.ConvertVariantHdr Util.ConvertVariantHdrRev.
 From NV Require Bgzf.Inflate.
 Extraction "model.ml" nv_types_witness build_a build_v detect_compression mk_inflated
   mkSource first_window build_src_a build_src_v
@@ -14,4 +14,4 @@ Extraction "model.ml" nv_types_witness build_a build_v detect_compression mk_inf
   convert_sam_bam_bytes convert_bam_sam_file convert_sam_bam_bgzf_l0 convert_bam_sam_bgzf_l0
   bgzf_unwrap bgzf_block_sizes Bgzf.Inflate.inflate
   build_strings build_contigs convert_vcf_bcf convert_bcf_vcf convert_vcf_bcf_lines convert_bcf_vcf_blocks
-  convert_vcf_bcf_hfile.
+  convert_vcf_bcf_hfile convert_bcf_vcf_hfile.
